@@ -34,12 +34,16 @@ type ident struct {
 	tt      pb.TransportType
 	pfx     int32
 	phantom int
+	noid    bool // prefix parameters present but without a prefix id (proto2 optional field unset: means id 0, "Min")
 }
 
 var phantoms = []net.IP{net.ParseIP("192.122.190.77").To4(), net.ParseIP("192.122.190.99").To4()}
 
 func (id ident) params() proto.Message {
 	if id.tt == pb.TransportType_Prefix {
+		if id.noid {
+			return &pb.PrefixTransportParams{RandomizeDstPort: proto.Bool(false)}
+		}
 		return &pb.PrefixTransportParams{PrefixId: proto.Int32(id.pfx)}
 	}
 	return &pb.GenericTransportParams{RandomizeDstPort: proto.Bool(false)}
@@ -172,7 +176,7 @@ func buildMenu(thorough bool) {
 		tt     pb.TransportType
 		pfx    int32
 	}
-	fls := []fl{{1, pb.TransportType_Min, 0}, {2, pb.TransportType_Min, 0}, {1, pb.TransportType_Prefix, 1}, {1, pb.TransportType_Prefix, 4}, {2, pb.TransportType_Prefix, 1}, {1, pb.TransportType_Obfs4, 0}, {2, pb.TransportType_Obfs4, 0}, {3, pb.TransportType_Min, 0}}
+	fls := []fl{{1, pb.TransportType_Min, 0}, {2, pb.TransportType_Min, 0}, {1, pb.TransportType_Prefix, 1}, {1, pb.TransportType_Prefix, 4}, {2, pb.TransportType_Prefix, 1}, {2, pb.TransportType_Prefix, 0}, {1, pb.TransportType_Obfs4, 0}, {2, pb.TransportType_Obfs4, 0}, {3, pb.TransportType_Min, 0}}
 	for _, f := range fls {
 		var params proto.Message = &pb.GenericTransportParams{RandomizeDstPort: proto.Bool(false)}
 		if f.tt == pb.TransportType_Prefix {
@@ -310,9 +314,11 @@ func probeState(i vbfs.Instance) (string, string) {
 func main() {
 	a := vh.Parse()
 	ids := []ident{
-		{"s1.min.p1", 1, pb.TransportType_Min, 0, 0}, {"s1.pfx1.p1", 1, pb.TransportType_Prefix, 1, 0}, {"s1.pfx4.p1", 1, pb.TransportType_Prefix, 4, 0},
-		{"s1.obfs4.p1", 1, pb.TransportType_Obfs4, 0, 0}, {"s2.min.p1", 2, pb.TransportType_Min, 0, 0}, {"s1.min.p2", 1, pb.TransportType_Min, 0, 1},
-		{"s2.pfx1.p2", 2, pb.TransportType_Prefix, 1, 1}, {"s2.obfs4.p1", 2, pb.TransportType_Obfs4, 0, 0},
+		{"s1.min.p1", 1, pb.TransportType_Min, 0, 0, false}, {"s1.pfx1.p1", 1, pb.TransportType_Prefix, 1, 0, false}, {"s1.pfx4.p1", 1, pb.TransportType_Prefix, 4, 0, false},
+		{"s1.obfs4.p1", 1, pb.TransportType_Obfs4, 0, 0, false}, {"s2.min.p1", 2, pb.TransportType_Min, 0, 0, false}, {"s1.min.p2", 1, pb.TransportType_Min, 0, 1, false},
+		{"s2.pfx1.p2", 2, pb.TransportType_Prefix, 1, 1, false}, {"s2.obfs4.p1", 2, pb.TransportType_Obfs4, 0, 0, false},
+		// prefix parameters without a prefix id: registered as prefix 0; flights behind any other prefix are not its own
+		{"s2.pfxunset.p1", 2, pb.TransportType_Prefix, 0, 0, true},
 	}
 	depth := 4
 	if a.Thorough() {
